@@ -797,6 +797,9 @@ func TimeBasedConnection(config *TimeBasedConnectionConfig) *graphql.FieldDefini
 				return join(ctx.Context, promises, func(v []any) (any, error) {
 					for _, queryEdges := range v {
 						v := reflect.ValueOf(queryEdges)
+						if v.Kind() == reflect.Invalid || v.IsNil() {
+							continue
+						}
 						for i := 0; i < v.Len(); i++ {
 							edges = append(edges, v.Index(i).Interface())
 						}
